@@ -196,3 +196,77 @@ pub fn worker() -> Option<(usize, usize)> {
     let (a, b) = v.split_once('/')?;
     Some((a.parse().ok()?, b.parse().ok()?))
 }
+
+/// Supervision: the engine body runs in a child process, so that a death of the subject under test
+/// (abort on allocation failure, stack overflow, SIGSEGV, `process::exit` deep inside it) is a finding
+/// attributed to the case in progress instead of a machinery failure. The child runs the cases in
+/// order, announces each one with `Supervised::begin`, and flushes its result document after every
+/// case; when it dies the parent records `process-died:<kind>` for the announced case and starts a
+/// new child right behind it.
+pub struct Supervised {
+    pub start: usize,
+    progress: String,
+}
+
+impl Supervised {
+    /// true when case `idx` was already handled by an earlier child
+    pub fn done_before(&self, idx: usize) -> bool {
+        idx < self.start
+    }
+    pub fn begin(&self, idx: usize, desc: &Value) {
+        let _ = std::fs::write(&self.progress, json!({"idx": idx, "desc": desc}).to_string());
+    }
+}
+
+pub fn supervise(property: &str) -> Supervised {
+    if let Ok(v) = std::env::var("VERIF_SUPERVISED_CHILD") {
+        return Supervised { start: v.parse().unwrap_or(0), progress: std::env::var("VERIF_SUPERVISED_PROGRESS").unwrap() };
+    }
+    use std::os::unix::process::ExitStatusExt;
+    let exe = std::env::current_exe().unwrap();
+    let base = std::env::var("VERIF_RESULT").unwrap_or_else(|_| "/verif/target/run/supervised".to_string());
+    let (child_out, progress) = (format!("{base}.child"), format!("{base}.progress"));
+    let mut res = EngineResult::new(property);
+    let mut start = 0usize;
+    let mut deaths = 0u64;
+    loop {
+        let _ = std::fs::remove_file(&child_out);
+        let _ = std::fs::remove_file(&progress);
+        let st = std::process::Command::new(&exe)
+            .env("VERIF_SUPERVISED_CHILD", start.to_string())
+            .env("VERIF_SUPERVISED_PROGRESS", &progress)
+            .env("VERIF_RESULT", &child_out)
+            .status()
+            .unwrap_or_else(|e| machinery(&format!("cannot start the supervised engine: {e}")));
+        if let Ok(txt) = std::fs::read_to_string(&child_out) {
+            if let Ok(doc) = serde_json::from_str::<Value>(&txt) {
+                res.merge_json(&doc);
+            }
+        }
+        if st.success() {
+            break;
+        }
+        if st.code() == Some(2) {
+            std::process::exit(2); // the child reported a machinery failure itself
+        }
+        let p: Value = std::fs::read_to_string(&progress).ok().and_then(|t| serde_json::from_str(&t).ok()).unwrap_or_else(|| machinery(&format!("supervised engine died ({st}) before announcing a case")));
+        let idx = p["idx"].as_u64().unwrap_or(0) as usize;
+        let kind = p["desc"]["kind"].as_str().unwrap_or("?").to_string();
+        let how = match st.signal() {
+            Some(s) => format!("killed by signal {s}"),
+            None => format!("exited with status {:?}", st.code()),
+        };
+        res.violation(&format!("process-died:{kind}"), &format!("the whole agent process died ({how}) during this case"), p["desc"].clone());
+        deaths += 1;
+        if deaths > 40 {
+            res.cov("exhaustive", false);
+            res.cov("supervision_gave_up_after_deaths", deaths);
+            break;
+        }
+        start = idx + 1;
+    }
+    res.cov("subject_process_deaths", deaths);
+    let _ = std::fs::remove_file(&child_out);
+    let _ = std::fs::remove_file(&progress);
+    std::process::exit(res.finish());
+}
